@@ -143,7 +143,50 @@ def itInc (c : Cfg) (s : FStr) (i : Nat) : Nat := if i < subW c s.len 1 then i +
 def itDeref (c : Cfg) (s : FStr) (i : Nat) : Res Byte :=
   if i = itEnd c then .throw .range_error else get1 s.buf i
 def ritBegin (c : Cfg) (s : FStr) : Nat := if s.len ≠ 0 then s.len - 1 else itEnd c
-def ritInc (c : Cfg) (i : Nat) : Nat := if i > 0 then i - 1 else itEnd c
+/-- `++rit` of the reverse iterator.  Repaired (fix 4c194d2): nothing happens at `rend()`; the pinned code stepped
+    from `EndValue` to `EndValue - 1`, an index far outside the buffer that `operator *` then used. -/
+def ritInc (c : Cfg) (i : Nat) : Nat := if i = itEnd c then i else if i > 0 then i - 1 else itEnd c
+
+/-! #### iterator arithmetic beyond `++`: `--`, `+=`, `-=`, `operator[]`, the relational operators -/
+
+/-- `--it` of the forward iterator.  Repaired (fix 4c194d2): "unless it already points behind the string";
+    the pinned code stepped from `EndValue` to `EndValue - 1`. -/
+def itDec (c : Cfg) (i : Nat) : Nat := if i = itEnd c then i else if i > 0 then i - 1 else itEnd c
+/-- `it += value` (forward) and `rit -= value` (reverse): `mIndex + value` is a wrapping `size_t` sum -/
+def itAdd (c : Cfg) (s : FStr) (i v : Nat) : Nat :=
+  if i = itEnd c then i else if addW c i v < s.len then addW c i v else itEnd c
+/-- `it -= value` (forward) and `rit += value` (reverse) -/
+def itSub (c : Cfg) (i v : Nat) : Nat := if i = itEnd c then i else if i ≥ v then i - v else itEnd c
+/-- `--rit` of the reverse iterator: the same code as the forward `++` -/
+def ritDec (c : Cfg) (s : FStr) (i : Nat) : Nat := if i < subW c s.len 1 then i + 1 else itEnd c
+
+inductive ItMove | inc | dec | add (v : Nat) | sub (v : Nat)
+  deriving Repr, DecidableEq
+
+def itMove (c : Cfg) (s : FStr) (rev : Bool) (i : Nat) : ItMove → Nat
+  | .inc => if rev then ritInc c i else itInc c s i
+  | .dec => if rev then ritDec c s i else itDec c i
+  | .add v => if rev then itSub c i v else itAdd c s i v
+  | .sub v => if rev then itAdd c s i v else itSub c i v
+
+/-- an iterator built at a position, then moved by a sequence of `++ -- += -=` -/
+def itWalk (c : Cfg) (s : FStr) (rev : Bool) (i : Nat) (ms : List ItMove) : Nat :=
+  ms.foldl (fun j m => itMove c s rev j m) i
+
+/-- `it[ idx]`: the forward iterator reads `mString[ mIndex + idx]` unchecked (like `operator[]` of the string);
+    the reverse iterator throws for `idx > mIndex` and reads `mString[ mIndex - idx]` -/
+def itIndex (c : Cfg) (s : FStr) (rev : Bool) (i idx : Nat) : Res Byte :=
+  if rev then (if idx > i then .throw .range_error else get1 s.buf (i - idx))
+  else get1 s.buf (addW c i idx)
+
+/-- relational operators on two iterators of the same object: `0 <`, `1 <=`, `2 >`, `3 >=`, `4 ==`, else `!=`;
+    raw index comparison (the reverse iterator compares the other way round), `end()` is the greatest index -/
+def itRel (rev : Bool) (r a b : Nat) : Bool :=
+  let x := if rev then b else a
+  let y := if rev then a else b
+  match r with
+  | 0 => decide (x < y) | 1 => decide (x ≤ y) | 2 => decide (x > y) | 3 => decide (x ≥ y)
+  | 4 => decide (a = b) | _ => !decide (a = b)
 
 /-- `for (it = begin(); it != end(); ++it) out.push_back(*it)` (fuel = the harness' safety bound) -/
 def iterFwdLoop (c : Cfg) (s : FStr) : Nat → Nat → List Byte → Res (List Byte)
@@ -588,6 +631,8 @@ inductive Op
   | setP (a : List Byte) | setS (d : Str) | setF (f : Sel) | clear
   | str | cStr | data | length | empty | atI (i : Nat) | cat (i : Nat) | idx (i : Nat) | front | back | stream
   | iterFwd | iterCFwd | iterRev | iterCRev | itDeref (k : Nat) | itDist
+  | itWalk (rev : Bool) (p : ItArg) (ms : List ItMove) | itWalkDeref (rev : Bool) (p : ItArg) (ms : List ItMove)
+  | itWalkIdx (rev : Bool) (p : ItArg) (ms : List ItMove) (k : Nat) | itRel (rev : Bool) (r : Nat) (a b : ItArg)
   | insertICC (i n : Nat) (ch : Byte) | insertIPC (i : Nat) (a : List Byte) (n : Nat) | insertIP (i : Nat) (a : List Byte)
   | insertIS (i : Nat) (d : Str) | insertISIC (i : Nat) (d : Str) (j n : Nat) | insertIF (i : Nat) (f : Sel)
   | insertIFIC (i : Nat) (f : Sel) (j n : Nat)
@@ -711,6 +756,10 @@ def step (c cu : Cfg) (w : World) : Op → Res (World × Out)
   | .iterCRev => obs w (iterRev c w.s) .bytes
   | .itDeref k => obs w (itDeref c w.s (itAt c w.s k)) .byte
   | .itDist => .ok (w, .nat (itMinus c w.s (itEnd c) (itBegin c w.s)))
+  | .itWalk rev p ms => .ok (w, .iter (itWalk c w.s rev (itOf c w.s p) ms))
+  | .itWalkDeref rev p ms => obs w (itDeref c w.s (itWalk c w.s rev (itOf c w.s p) ms)) .byte
+  | .itWalkIdx rev p ms k => obs w (itIndex c w.s rev (itWalk c w.s rev (itOf c w.s p) ms) k) .byte
+  | .itRel rev r a b => .ok (w, .bool (itRel rev r (itOf c w.s a) (itOf c w.s b)))
   | .insertICC i n ch => mutS w (insertCh c w.s i n ch)
   | .insertIPC i a n => mutS w (insertP c w.s i a n)
   | .insertIP i a => mutS w (insertCstr c w.s i a)
@@ -849,6 +898,7 @@ def spec (cl : Nat → Nat) (big : Nat) (w : World) (op : Op) : Res (Str × Out)
     else thenS (StdString.replace x (itPos x f) (itPos x l - itPos x f) r)
   match op with
   | .tset _ | .uset _ => obsv .unit
+  | .itWalk .. | .itWalkDeref .. | .itWalkIdx .. | .itRel .. => obsv .unit   -- no specification attached (`inDomain = false`)
   | .ctorP a | .assignP a | .setP a | .sprintf a => okS (StdString.ofCStr a)
   | .ctorS d | .assignS d | .setS d => okS d
   | .ctorF f | .assignF f | .setF f => okS (T f)
@@ -889,7 +939,7 @@ def spec (cl : Nat → Nat) (big : Nat) (w : World) (op : Op) : Res (Str × Out)
   | .appendSP d p => thenS (bindR (StdString.substr d p big) fun r => .ok (x ++ r))
   | .appendFPC f p n => thenS (bindR (StdString.substr (T f) p n) fun r => .ok (x ++ r))
   | .appendFP f p => thenS (bindR (StdString.substr (T f) p big) fun r => .ok (x ++ r))
-  | .appendPC a n => okS (x ++ (StdString.ofCStr a).take n)
+  | .appendPC a n => okS (x ++ a.take n)          -- `std::string::append( p, n)`: the `n` bytes at `p`, NULs included
   | .appendP a | .addP a => okS (x ++ StdString.ofCStr a)
   | .appendItIt i j => okS (x ++ ((T .t).drop (itPos (T .t) i)).take (itPos (T .t) j - itPos (T .t) i))
   | .cmpF f => obsv (.int (StdString.compare x (T f)))
@@ -903,7 +953,7 @@ def spec (cl : Nat → Nat) (big : Nat) (w : World) (op : Op) : Res (Str × Out)
   | .cmpCCSCC p n d p2 n2 => bindR (StdString.substr x p n) fun y => bindR (StdString.substr d p2 n2) fun z =>
       obsv (.int (StdString.compare y z))
   | .cmpCCPC p n a n2 => bindR (StdString.substr x p n) fun y =>
-      obsv (.int (StdString.compare y ((StdString.ofCStr a).take n2)))
+      obsv (.int (StdString.compare y (a.take n2)))   -- `compare( pos, n, p, n2)`: the `n2` bytes at `p`
   | .swF f => obsv (.bool (StdString.startsWith x (T f)))
   | .swS d => obsv (.bool (StdString.startsWith x d))
   | .swP a => obsv (.bool (StdString.startsWith x (StdString.ofCStr a)))
@@ -923,7 +973,7 @@ def spec (cl : Nat → Nat) (big : Nat) (w : World) (op : Op) : Res (Str × Out)
   | .repCCSCC p n d p2 n2 => thenS (bindR (StdString.substr d p2 n2) fun r => StdString.replace x p n r)
   | .repCCSC p n d p2 => thenS (bindR (StdString.substr d p2 big) fun r => StdString.replace x p n r)
   | .repCCP p n a => thenS (StdString.replace x p n (StdString.ofCStr a))
-  | .repCCPC p n a n2 => thenS (StdString.replace x p n ((StdString.ofCStr a).take n2))
+  | .repCCPC p n a n2 => thenS (StdString.replace x p n (a.take n2))   -- the `n2` bytes at `p`
   | .repCCCC p n n2 ch => thenS (StdString.replace x p n (rep n2 ch))
   | .repItItItIt f l i j => itRep f l (((T .t).drop (itPos (T .t) i)).take (itPos (T .t) j - itPos (T .t) i))
   | .repItItSIt f l d i j => itRep f l ((d.drop i).take (j - i))
@@ -971,8 +1021,14 @@ def inDomain (big : Nat) (w : World) (op : Op) : Bool :=
   let n := x.length
   match op with
   | .tset _ | .uset _ => false
-  | .ctorP a | .assignP a | .setP a | .sprintf a | .sprintf2 a _ | .appendP a | .addP a | .appendPC a _
+  -- iterator arithmetic beyond `++`: modelled and proved safe (C10), not compared with std::string iterators
+  -- (FixedString maps every position outside the string to `end()`, where a std::string iterator is undefined)
+  | .itWalk .. | .itWalkDeref .. | .itWalkIdx .. | .itRel .. => false
+  | .ctorP a | .assignP a | .setP a | .sprintf a | .sprintf2 a _ | .appendP a | .addP a
   | .cmpP a | .swP a | .ewP a => hasNul a
+  -- documented restriction ("C string", "number of characters from str"): the count does not reach behind the
+  -- terminator; beyond it the code stops at the NUL where std::string takes the bytes (`C11_deviation_count_*`)
+  | .appendPC a k => hasNul a && k ≤ (StdString.ofCStr a).length
   | .ctorS _ | .assignS _ | .setS _ | .ctorF _ | .assignF _ | .setF _ | .ctorMove | .swap | .ctorDef | .clear => true
   | .str | .iterFwd | .iterCFwd | .iterRev | .iterCRev | .cStr | .data | .stream | .length | .itDist | .empty
   | .front | .back => true
@@ -995,7 +1051,8 @@ def inDomain (big : Nat) (w : World) (op : Op) : Bool :=
   | .appendItIt i j => itPos (T .t) i ≤ itPos (T .t) j
   | .cmpF _ | .cmpS _ => true
   | .cmpCCF p _ _ | .cmpCCS p _ _ => p ≤ n
-  | .cmpCCP p _ a | .cmpCCPC p _ a _ => p ≤ n && hasNul a
+  | .cmpCCP p _ a => p ≤ n && hasNul a
+  | .cmpCCPC p _ a k => p ≤ n && hasNul a && k ≤ (StdString.ofCStr a).length
   | .cmpCCFCC p _ f p2 _ => p ≤ n && p2 ≤ (T f).length
   | .cmpCCSCC p _ d p2 _ => p ≤ n && p2 ≤ d.length
   | .swF _ | .swS _ | .swC _ | .ewF _ | .ewS _ | .ewC _ | .ctC _ => true
@@ -1005,7 +1062,8 @@ def inDomain (big : Nat) (w : World) (op : Op) : Bool :=
   | .repCCF p _ _ | .repCCS p _ _ | .repCCCC p _ _ _ => p ≤ n
   | .repCCFCC p _ f p2 _ | .repCCFC p _ f p2 => p ≤ n && p2 ≤ (T f).length
   | .repCCSCC p _ d p2 _ | .repCCSC p _ d p2 => p ≤ n && p2 ≤ d.length
-  | .repCCP p _ a | .repCCPC p _ a _ => p ≤ n && hasNul a
+  | .repCCP p _ a => p ≤ n && hasNul a
+  | .repCCPC p _ a k => p ≤ n && hasNul a && k ≤ (StdString.ofCStr a).length
   | .repItItItIt f l i j => itRange x f l && itPos (T .t) i < itPos (T .t) j && derefable (T .t) i &&
       (!actsEnd (T .t) j || !hasNul ((T .t).drop (itPos (T .t) i)))
   | .repItItSIt f l d i j => itRange x f l && i < j && j ≤ d.length
